@@ -16,7 +16,11 @@ of mypy.build / mypy.build_worker.worker, /repo is never modified):
     - per-SCC sleeps in workers before the interface phase and before the implementation phase,
     - which free worker `free_workers.pop()` returns,
     - which of several simultaneously readable worker connections the coordinator serves in a round
-      (a non-empty sub-list in permuted order; the rest stay readable for the next round).
+      (a non-empty sub-list in permuted order; the rest stay readable for the next round),
+    - C07_LONG_SLEEP=<s>: a long pause before a later module of a multi-module batch (at most 1 per worker and run),
+      C07_SQLITE_BUSY_MS=<ms>: sqlite busy timeout of the cache shards (so that a write lock held across that
+      pause shows up as "database is locked" without waiting for sqlite's default 5 s).
+* also logs per-module store commits of workers (commit_module: file, shard) and impl_start(module).
 * raises WORKER_START_TIMEOUT (3 s in the sources; an environment limit, not scheduling logic) so that a
   loaded test machine cannot produce spurious "failed to connect" runs.
 """
@@ -228,9 +232,20 @@ def _c07_install() -> None:
     W.process_stale_scc_interface = process_stale_scc_interface
 
     orig_impl = B.process_stale_scc_implementation
+    long_sleep = float(os.environ.get("C07_LONG_SLEEP", "0") or 0)
+    wstate["impl_idx"] = 0
+    wstate["long_done"] = 0
 
     def process_stale_scc_implementation(graph, stale, manager, meta_files):
         d = delay("impl", ",".join(stale))
+        # a long pause before a LATER module of a multi-module batch: while it lasts the worker must not hold any
+        # cache-shard write lock of the modules it already finished (another worker may need that shard)
+        if (perturb and long_sleep and wstate["impl_idx"] >= 1 and wstate["long_done"] < 1
+                and h("long", ",".join(stale)) % 2 == 0):
+            d = long_sleep
+            wstate["long_done"] += 1
+        emit({"ev": "impl_start", "w": worker_idx(), "mods": list(stale), "idx": wstate["impl_idx"], "sleep": round(d, 3)})
+        wstate["impl_idx"] += 1
         if d:
             time.sleep(d)
         res = orig_impl(graph, stale, manager, meta_files)
@@ -239,6 +254,33 @@ def _c07_install() -> None:
 
     B.process_stale_scc_implementation = process_stale_scc_implementation
     W.process_stale_scc_implementation = process_stale_scc_implementation
+
+    orig_commit_module = B.BuildManager.commit_module
+
+    def commit_module(self, meta_file):
+        res = orig_commit_module(self, meta_file)
+        if self.parallel_worker:
+            shard = -1
+            try:
+                shard = self.metastore._shard_index(meta_file)
+            except Exception:
+                pass
+            emit({"ev": "commit_module", "w": worker_idx(), "file": meta_file, "shard": shard})
+        return res
+
+    B.BuildManager.commit_module = commit_module
+
+    busy_ms = os.environ.get("C07_SQLITE_BUSY_MS", "")
+    if busy_ms:
+        import mypy.metastore as MS
+        orig_connect_db = MS.connect_db
+
+        def connect_db(db_file, set_journal_mode):
+            db = orig_connect_db(db_file, set_journal_mode)
+            db.execute("PRAGMA busy_timeout=%d" % int(busy_ms))
+            return db
+
+        MS.connect_db = connect_db
 
     orig_commit = B.BuildManager.commit
 
@@ -267,6 +309,7 @@ def _c07_install() -> None:
         data = orig_req_read(cls, buf)
         if data.scc_ids:
             wstate["batch"] = list(data.scc_ids)
+            wstate["impl_idx"] = 0
             emit({"ev": "start", "w": worker_idx(), "sccs": list(data.scc_ids)})
         return data
 
